@@ -100,11 +100,11 @@ fn spec_valid(start: &Certificate, served: &HashMap<String, Certificate>, gv: &G
         if p.hash != c.previous_hash { return Err("parent served under another hash".into()); }
         let same = p.epoch == c.epoch;
         let link = if same {
-            p.aggregate_verification_key == c.aggregate_verification_key && p.metadata.protocol_parameters == c.metadata.protocol_parameters
+            same_key(&p.aggregate_verification_key, &c.aggregate_verification_key) && p.metadata.protocol_parameters == c.metadata.protocol_parameters
         } else if p.epoch.0 + 1 == c.epoch.0 {
             p.protocol_message.get_message_part(&ProtocolMessagePartKey::NextAggregateVerificationKey)
                 .and_then(|s| ProtocolAggregateVerificationKeyForConcatenation::try_from(s.as_str()).ok())
-                .map(|k| k == c.aggregate_verification_key).unwrap_or(false)
+                .map(|k| same_key(&k, &c.aggregate_verification_key)).unwrap_or(false)
                 && p.protocol_message.get_message_part(&ProtocolMessagePartKey::NextProtocolParameters)
                     .map(|s| *s == c.metadata.protocol_parameters.compute_hash()).unwrap_or(false)
         } else { false };
@@ -112,6 +112,21 @@ fn spec_valid(start: &Certificate, served: &HashMap<String, Certificate>, gv: &G
         c = p.clone();
     }
     Err("no genesis within the step bound".into())
+}
+
+/// key identity as the property means it: every committed field (Merkle root, number of leaves, total
+/// stake), compared on the canonical encoding and NOT through the code's own `PartialEq`
+fn same_key(a: &ProtocolAggregateVerificationKeyForConcatenation, b: &ProtocolAggregateVerificationKeyForConcatenation) -> bool {
+    match (a.to_json_hex(), b.to_json_hex()) { (Ok(x), Ok(y)) => x == y, _ => false }
+}
+
+/// the same key with one field of its JSON form altered by `f`
+fn alter_key(k: &ProtocolAggregateVerificationKeyForConcatenation, f: &dyn Fn(&mut serde_json::Value)) -> Option<ProtocolAggregateVerificationKeyForConcatenation> {
+    let bytes = hex::decode(k.to_json_hex().ok()?).ok()?;
+    let mut v: serde_json::Value = serde_json::from_slice(&bytes).ok()?;
+    f(&mut v);
+    let enc = hex::encode(serde_json::to_vec(&v).ok()?);
+    ProtocolAggregateVerificationKeyForConcatenation::try_from(enc.as_str()).ok()
 }
 
 fn rehash(c: &mut Certificate) { c.hash = c.try_compute_hash().unwrap(); }
@@ -235,6 +250,26 @@ fn main() {
                     let mut s = honest.clone();
                     s.insert(c.previous_hash.clone(), forged);
                     run(&mut sink, "forged-hash-field", &certs[0], &s, &gv);
+                }
+            }
+            // ---- the certificate's own key altered field by field (Merkle commitment kept where possible: the
+            // multi-signature only binds the commitment, and a smaller total stake only makes lotteries easier)
+            if !c.is_genesis() {
+                let key_alters: Vec<(&str, Box<dyn Fn(&mut serde_json::Value)>)> = vec![
+                    ("key-total-stake-minus-1", Box::new(|v: &mut serde_json::Value| { let t = v["total_stake"].as_u64().unwrap(); v["total_stake"] = serde_json::json!(t - 1); })),
+                    ("key-total-stake-plus-1", Box::new(|v: &mut serde_json::Value| { let t = v["total_stake"].as_u64().unwrap(); v["total_stake"] = serde_json::json!(t + 1); })),
+                    ("key-nr-leaves-plus-1", Box::new(|v: &mut serde_json::Value| { let t = v["mt_commitment"]["nr_leaves"].as_u64().unwrap(); v["mt_commitment"]["nr_leaves"] = serde_json::json!(t + 1); })),
+                    ("key-root-bit", Box::new(|v: &mut serde_json::Value| { let t = v["mt_commitment"]["root"][0].as_u64().unwrap(); v["mt_commitment"]["root"][0] = serde_json::json!(t ^ 1); })),
+                ];
+                for (tag, f) in &key_alters {
+                    if let Some(k2) = alter_key(&c.aggregate_verification_key, f.as_ref()) {
+                        let mut y = c.clone();
+                        y.aggregate_verification_key = k2;
+                        rehash(&mut y);
+                        let mut s = honest.clone();
+                        s.insert(y.hash.clone(), y.clone());
+                        run(&mut sink, tag, &y, &s, &gv);
+                    }
                 }
             }
             // ---- adversary-signed certificate spliced at this position: it links to the honest parent
